@@ -505,7 +505,7 @@ fn format_directive<'entry>(
         FormatDirective::Permissions(PermissionsFormat::Octal) => "777".into(),
         #[cfg(unix)]
         FormatDirective::Permissions(PermissionsFormat::Octal) => {
-            format!("{:>03o}", meta()?.mode() & 0o777).into()
+            format!("{:>03o}", meta()?.mode() & 0o7777).into()
         }
 
         FormatDirective::Size => meta()?.len().to_string().into(),
@@ -542,17 +542,16 @@ fn format_directive<'entry>(
             }
         }
 
-        FormatDirective::Type { follow_links } => if file_info.path_is_symlink() {
-            if *follow_links {
-                match file_info.path().metadata().map_err(WalkError::from) {
-                    Ok(meta) => format_non_link_file_type(meta.file_type().into()),
-                    Err(e) if e.is_not_found() => 'N',
-                    Err(e) if e.is_loop() => 'L',
-                    Err(_) => '?',
-                }
-            } else {
-                'l'
+        FormatDirective::Type { follow_links } => if *follow_links && file_info.path_is_symlink() {
+            match file_info.path().metadata().map_err(WalkError::from) {
+                Ok(meta) => format_non_link_file_type(meta.file_type().into()),
+                Err(e) if e.is_not_found() => 'N',
+                Err(e) if e.is_loop() => 'L',
+                Err(_) => '?',
             }
+        } else if file_info.file_type().is_symlink() {
+            // %y agrees with -type: a link that -L/-H resolves has its target's type
+            'l'
         } else {
             format_non_link_file_type(file_info.file_type())
         }
